@@ -126,7 +126,7 @@ def case_space(tier, seed, with_tags=False, maxp=None, depth=None):
             for rev in (False, True):
                 order = list(reversed(ids)) if rev else list(ids)
                 cases.append((version, order, []))
-                cap = None if (tier == "quick" and len(ids) <= 4) else (4 if tier == "quick" else 5)
+                cap = None if (tier == "quick" and len(ids) <= 3) else (3 if tier == "quick" else 5)
                 for h in histories(version, ids, depth if len(ids) <= 6 else max(1, depth - 1), rng, cap, with_tags):
                     if rev and len(h) > 1:
                         continue
